@@ -13,24 +13,28 @@ Local Open Scope Z_scope.
 (* ------------------------------------------------------------------ *)
 (** * All closure instances of a value *)
 
-Inductive node := NItem (ci : citem) | NHeld (a : N) (ci : citem) | NVal (r : ret).
+Inductive node := NItem (ci : citem) | NHeld (a : N) (ci : citem) | NVal (r : ret) | NAct (a : N).
+
+(* the actor an item will look up in the actor table when it runs *)
+Definition tacts (k : ckind) : list node :=
+  match k with KMeth a _ _ | KPrep a _ _ | KSlabRm a _ => [NAct a] | _ => [] end.
 
 Definition lflat (f : hval -> list node) : list (N * hval) -> list node :=
   fix go l := match l with [] => [] | p :: l' => (let (_, v) := p in f v) ++ go l' end.
 
 Fixpoint vnodes (v : hval) : list node :=
-  match v with HRet r => NVal r :: rnodes r | _ => [] end
+  match v with HRet r => NVal r :: rnodes r | HOwn a | HAct a | HAnon a => [NAct a] | _ => [] end
 with rnodes (r : ret) : list node :=
   match r with Ret _ k => knodes k end
 with knodes (k : rkind) : list node :=
   match k with
   | RKClos caps _ => lflat vnodes caps
-  | RKTo a ci | RKSomeTo a ci => NHeld a ci :: cnodes ci
-  | RKNotify _ inner => match inner with Some (p, ci) => NHeld p ci :: cnodes ci | None => [] end
-  | RKSlab _ _ inner => rnodes inner
+  | RKTo a ci | RKSomeTo a ci => NHeld a ci :: NAct a :: cnodes ci
+  | RKNotify _ inner => match inner with Some (p, ci) => NHeld p ci :: NAct p :: cnodes ci | None => [] end
+  | RKSlab p _ inner => NAct p :: rnodes inner
   end
 with cnodes (ci : citem) : list node :=
-  match ci with CI u c k caps q => NItem (CI u c k caps q) :: lflat vnodes caps end.
+  match ci with CI u c k caps q => NItem (CI u c k caps q) :: tacts k ++ lflat vnodes caps end.
 
 Definition lnodes (l : list (N * hval)) : list node := lflat vnodes l.
 
@@ -40,7 +44,7 @@ Proof. reflexivity. Qed.
 Lemma lnodes_app a b : lnodes (a ++ b) = lnodes a ++ lnodes b.
 Proof. induction a as [|[h v] a IH]; simpl; auto. fold (lnodes (a ++ b)) (lnodes a). rewrite IH, app_assoc. reflexivity. Qed.
 
-Lemma cnodes_eq ci : cnodes ci = NItem ci :: lnodes (ci_caps ci).
+Lemma cnodes_eq ci : cnodes ci = NItem ci :: tacts (ci_kind ci) ++ lnodes (ci_caps ci).
 Proof. destruct ci; reflexivity. Qed.
 
 (* ------------------------------------------------------------------ *)
@@ -74,7 +78,7 @@ Definition user_ret (r : ret) : Prop :=
   match r with Ret _ k => match k with RKClos _ _ | RKTo _ _ | RKSomeTo _ _ => True | _ => False end end.
 
 Definition nwf (s : st) (n : node) : Prop :=
-  match n with NItem ci => iwf s ci | NHeld a ci => tgt_is ci a | NVal r => user_ret r end.
+  match n with NItem ci => iwf s ci | NHeld a ci => tgt_is ci a | NVal r => user_ret r | NAct a => In (EActor a) (tr s) end.
 
 (* later state: uids only grow, the trace only grows, and the target events added are about uids that were not
    handed out before *)
@@ -110,7 +114,7 @@ Qed.
 
 Lemma nwf_mono s s' n : sle s s' -> nwf s n -> nwf s' n.
 Proof.
-  intros [A (evs & B & F)] H. destruct n; simpl in *; auto. destruct H as [H1 H2]. split; [lia|].
+  intros [A (evs & B & F)] H. destruct n; simpl in *; auto; [|rewrite B; apply in_or_app; auto]. destruct H as [H1 H2]. split; [lia|].
   assert (R : last_tgt (tr s') (ci_uid ci) = last_tgt (tr s) (ci_uid ci)).
   { rewrite B. apply last_tgt_app. intros u' a p IN EQ. specialize (F _ _ _ IN). lia. }
   rewrite R. exact H2.
@@ -127,8 +131,14 @@ Definition rwf s r := nsf s (rnodes r).
 Definition lwf s l := nsf s (lnodes l).
 Definition qwf s (l : list citem) := Forall (cwf s) l.
 
-Lemma cwf_iff s ci : cwf s ci <-> iwf s ci /\ lwf s (ci_caps ci).
-Proof. unfold cwf, lwf, nsf. rewrite cnodes_eq. split. intros H; inversion H; auto. intros [A B]; constructor; auto. Qed.
+Definition twf s (k : ckind) := nsf s (tacts k).
+
+Lemma cwf_iff s ci : cwf s ci <-> iwf s ci /\ lwf s (ci_caps ci) /\ twf s (ci_kind ci).
+Proof.
+  unfold cwf, lwf, twf, nsf. rewrite cnodes_eq. split.
+  - intros H; inversion H; subst. apply Forall_app in H3 as [X Y]. auto.
+  - intros (A & B & C); constructor; auto. apply Forall_app. auto.
+Qed.
 
 Lemma lwf_cons s h v l : lwf s ((h, v) :: l) <-> vwf s v /\ lwf s l.
 Proof. unfold lwf, vwf, nsf. rewrite lnodes_cons. apply Forall_app. Qed.
@@ -177,6 +187,7 @@ Definition mnodes (m : mop) : list node :=
   | MRunItem c | MDropItem c | MDropInner c => cnodes c
   | MDropVal v => vnodes v
   | MRetInvoke r _ => rnodes r
+  | MToReady a | MEndBody _ (FPrep a _) => [NAct a]
   | _ => []
   end.
 
@@ -200,7 +211,9 @@ Record QWF (s : st) : Prop := mkQWF {
   w_env : lwf s (env s);
   w_frames : Forall (fun fr => lwf s (f_loc fr)) (frames s);
   w_actors : forall a x, aget (actors s) a = Some x -> awf s x;
-  w_tgts : forall u, (nuid s <= u)%N -> last_tgt (tr s) u = None }.
+  w_tgts : forall u, (nuid s <= u)%N -> last_tgt (tr s) u = None;
+  w_ae : forall a x, aget (actors s) a = Some x -> In (EActor a) (tr s);
+  w_fwds : forall f rc k a, aget (fwds s) f = Some (FwdObj rc k (Some a)) -> In (EActor a) (tr s) }.
 
 Definition WF (k : list mop) (s : st) : Prop := kwf s k /\ QWF s.
 
@@ -217,9 +230,11 @@ Qed.
 (* same components, later state *)
 Lemma QWF_transport s s' :
   QWF s -> sle s s' -> mainq s' = mainq s -> lazyq s' = lazyq s -> idleq s' = idleq s -> timers s' = timers s ->
-  env s' = env s -> frames s' = frames s -> actors s' = actors s -> QWF s'.
+  env s' = env s -> frames s' = frames s -> actors s' = actors s -> fwds s' = fwds s -> QWF s'.
 Proof.
-  intros [A B C D E F G H TG] L E1 E2 E3 E4 E5 E6 E7. constructor.
+  intros [A B C D E F G H TG AE FW] L E1 E2 E3 E4 E5 E6 E7 E8. constructor.
+  10:{ intros a x. rewrite E7. intros AX. eapply ext_in; [apply sle_ext; exact L | eapply AE; eauto]. }
+  10:{ intros f rc k a. rewrite E8. intros AX. eapply ext_in; [apply sle_ext; exact L | eapply FW; eauto]. }
   9:{ intros u U. destruct L as [LN (evs & LE & LF)]. rewrite LE, last_tgt_app; [apply TG; lia|].
       intros u' a p IN EQ. specialize (LF _ _ _ IN). lia. }
   - destruct L. lia.
@@ -254,7 +269,17 @@ Ltac se := apply sle_emit; reflexivity.
 Lemma Q_set_nuid s v : QWF s -> (nuid s <= v)%N -> QWF (set_nuid s v).
 Proof. intros H L. transport_tac. split; [exact L|]. exists []. split; [reflexivity | apply fresh_nil]. Qed.
 
-Lemma Q_set_fwds s v : QWF s -> QWF (set_fwds s v). Proof. intros H. transport_tac. apply sle_same; reflexivity. Qed.
+Definition fwf s (v : list (N * fwdobj)) : Prop := forall f rc k a, aget v f = Some (FwdObj rc k (Some a)) -> In (EActor a) (tr s).
+Lemma Q_set_fwds s v : QWF s -> fwf s v -> QWF (set_fwds s v).
+Proof. intros [A B C D E F G H TG AE FW] L. constructor; auto. Qed.
+Lemma fwf_aset s v f rc k tg : fwf s v -> match tg with Some a => In (EActor a) (tr s) | None => True end -> fwf s (aset v f (FwdObj rc k tg)).
+Proof.
+  intros W T g rc' k' a. destruct (N.eq_dec f g) as [<-|NE].
+  - rewrite aget_aset_eq. intros E; inversion E; subst. exact T.
+  - rewrite aget_aset_neq by auto. apply W.
+Qed.
+Lemma fwf_same s v f rc k tg rc' : fwf s v -> aget v f = Some (FwdObj rc k tg) -> fwf s (aset v f (FwdObj rc' k tg)).
+Proof. intros W G. apply fwf_aset; auto. destruct tg; auto. eapply W; eauto. Qed.
 Lemma Q_set_shut s v : QWF s -> QWF (set_shut s v). Proof. intros H. transport_tac. apply sle_same; reflexivity. Qed.
 Lemma Q_set_logseq s v : QWF s -> QWF (set_logseq s v). Proof. intros H. transport_tac. apply sle_same; reflexivity. Qed.
 Lemma Q_set_tvars s v : QWF s -> QWF (set_tvars s v). Proof. intros H. transport_tac. apply sle_same; reflexivity. Qed.
@@ -267,24 +292,27 @@ Lemma Q_set_logfilter s v : QWF s -> QWF (set_logfilter s v). Proof. intros H. t
 Lemma Q_set_haslogger s v : QWF s -> QWF (set_haslogger s v). Proof. intros H. transport_tac. apply sle_same; reflexivity. Qed.
 
 Lemma Q_set_mainq s l : QWF s -> qwf s l -> QWF (set_mainq s l).
-Proof. intros [A B C D E F G H TG] L. constructor; auto. Qed.
+Proof. intros [A B C D E F G H TG AE FW] L. constructor; auto. Qed.
 Lemma Q_set_lazyq s l : QWF s -> qwf s l -> QWF (set_lazyq s l).
-Proof. intros [A B C D E F G H TG] L. constructor; auto. Qed.
+Proof. intros [A B C D E F G H TG AE FW] L. constructor; auto. Qed.
 Lemma Q_set_idleq s l : QWF s -> qwf s l -> QWF (set_idleq s l).
-Proof. intros [A B C D E F G H TG] L. constructor; auto. Qed.
+Proof. intros [A B C D E F G H TG AE FW] L. constructor; auto. Qed.
 Lemma Q_set_timers s l : QWF s -> qwf s (map ti_ci l) -> QWF (set_timers s l).
-Proof. intros [A B C D E F G H TG] L. constructor; auto. Qed.
+Proof. intros [A B C D E F G H TG AE FW] L. constructor; auto. Qed.
 Lemma Q_set_env s v : QWF s -> lwf s v -> QWF (set_env s v).
-Proof. intros [A B C D E F G H TG] L. constructor; auto. Qed.
+Proof. intros [A B C D E F G H TG AE FW] L. constructor; auto. Qed.
 Lemma Q_set_frames s fs : QWF s -> Forall (fun fr => lwf s (f_loc fr)) fs -> QWF (set_frames s fs).
-Proof. intros [A B C D E F G H TG] L. constructor; auto. Qed.
+Proof. intros [A B C D E F G H TG AE FW] L. constructor; auto. Qed.
 
-Lemma Q_upd_actor s a x : QWF s -> awf s x -> QWF (upd_actor s a x).
+Lemma Q_upd_actor s a x : QWF s -> awf s x -> (exists y, aget (actors s) a = Some y) -> QWF (upd_actor s a x).
 Proof.
-  intros [A B C D E F G H TG] L. constructor; auto. unfold upd_actor; simpl. intros b y.
-  destruct (N.eq_dec a b) as [<-|NE].
-  - rewrite aget_aset_eq. intros EQ; inversion EQ; subst; auto.
-  - rewrite aget_aset_neq by auto. apply H.
+  intros [A B C D E F G H TG AE FW] L (y0 & AY). constructor; auto; unfold upd_actor; simpl; intros b y.
+  - destruct (N.eq_dec a b) as [<-|NE].
+    + rewrite aget_aset_eq. intros EQ; inversion EQ; subst; auto.
+    + rewrite aget_aset_neq by auto. apply H.
+  - destruct (N.eq_dec a b) as [<-|NE].
+    + intros _. eapply AE; eauto.
+    + rewrite aget_aset_neq by auto. apply AE.
 Qed.
 
 Lemma sle_upd_actor s a x : sle s (upd_actor s a x). Proof. apply sle_same; reflexivity. Qed.
@@ -352,8 +380,30 @@ Proof.
   intros H. unfold ref_clone. destruct (aget (actors s) a) as [x|] eqn:E; [|qe; auto].
   assert (AW : awf s (with_rc x (oz (minrc_clone (a_rc x))))) by (apply (w_actors _ H _ _ E)).
   destruct (a_freed x).
-  - apply Q_upd_actor. qe; auto. eapply awf_mono; [se | exact AW].
-  - apply Q_upd_actor; auto.
+  - apply Q_upd_actor; [qe; auto | eapply awf_mono; [se | exact AW] | simpl; eauto].
+  - apply Q_upd_actor; eauto.
+Qed.
+
+(* a new cell together with its creation event *)
+Lemma Q_add_actor s a x : QWF s -> awf s x -> QWF (emit (upd_actor s a x) (EActor a)).
+Proof.
+  intros H0 L. assert (SL : sle s (emit (upd_actor s a x) (EActor a))) by (eapply sle_trans; [apply sle_upd_actor | se]).
+  destruct H0 as [A B C D E F G H TG AE FW]. constructor.
+  9:{ intros u U. destruct SL as [LN (evs & LE & LF)]. rewrite LE, last_tgt_app; [apply TG; simpl in U; lia|].
+      intros u' a' p IN EQ. specialize (LF _ _ _ IN). simpl in *. lia. }
+  - exact A.
+  - eapply qwf_mono; eauto.
+  - eapply qwf_mono; eauto.
+  - eapply qwf_mono; eauto.
+  - eapply qwf_mono; eauto.
+  - eapply nsf_mono; eauto.
+  - eapply Forall_impl; [|exact G]. intros fr. apply nsf_mono; auto.
+  - simpl. intros b y. destruct (N.eq_dec a b) as [<-|NE].
+    + rewrite aget_aset_eq. intros EQ; inversion EQ; subst. eapply awf_mono; eauto.
+    + rewrite aget_aset_neq by auto. intros AX. eapply awf_mono; eauto.
+  - simpl. intros b y. destruct (N.eq_dec a b) as [<-|NE]; [left; reflexivity|].
+    rewrite aget_aset_neq by auto. intros AX. right. eapply AE; eauto.
+  - simpl. intros f rc k b AX. right. eapply FW; eauto.
 Qed.
 
 Lemma sle_ref_clone s a : sle s (ref_clone s a).
@@ -386,7 +436,7 @@ Proof.
   assert (L : sle s s2) by (unfold s2; eapply sle_trans; [|apply sle_log_rec]; apply sle_same; reflexivity).
   assert (H2 : QWF s2) by (unfold s2; apply Q_log_rec, Q_set_logseq; auto).
   assert (H3 : QWF (emit (upd_actor s2 a (mkActor (SPrep []) (oz (count_inc (oz count_new))) MINRC_INIT (Some nt) (oz (log_id_next (logseq s))) false)) (EActor a))).
-  { qe; apply Q_upd_actor; auto. split; simpl; [constructor|]. eapply nsf_mono; eauto. }
+  { apply Q_add_actor; auto. split; simpl; [constructor|]. eapply nsf_mono; eauto. }
   destruct vis; auto. qe; auto.
 Qed.
 
@@ -487,17 +537,18 @@ Lemma cwf_intro s u c k caps q :
   (u < nuid s)%N -> lwf s caps ->
   match k with KMeth a _ _ => last_tgt (tr s) u = Some (a, false) | KPrep a _ _ => last_tgt (tr s) u = Some (a, true)
              | KPlain _ => last_tgt (tr s) u = None | _ => True end ->
+  twf s k ->
   cwf s (CI u c k caps q).
-Proof. intros A B C. apply cwf_iff. split; auto. split; auto. Qed.
+Proof. intros A B C D. apply cwf_iff. split; [split; auto|]. split; auto. Qed.
 
 (* a fresh closure instance with its creation event and (for calls) its target event *)
 Lemma created_wf s1 cid k caps :
-  QWF s1 -> lwf s1 caps ->
+  QWF s1 -> lwf s1 caps -> twf s1 k ->
   let u := nuid s1 in
   let s' := target_ev (emit (set_nuid s1 (u + 1)%N) (EClo u cid)) (CI u cid k caps None) in
   QWF s' /\ sle s1 s' /\ cwf s' (CI u cid k caps None).
 Proof.
-  intros H L u s'.
+  intros H L TW u s'.
   assert (SL : sle s1 s').
   { unfold s', target_ev. destruct k; (split; [simpl; lia|]).
     all: try (exists [EClo u cid]; split; [reflexivity | apply fresh_notgt; reflexivity]).
@@ -509,32 +560,36 @@ Proof.
   - unfold s', target_ev. destruct k; simpl; lia.
   - eapply nsf_mono; eauto.
   - unfold s', target_ev. destruct k; simpl; auto; try (rewrite N.eqb_refl; reflexivity). apply (w_tgts _ H). unfold u. lia.
+  - eapply nsf_mono; eauto.
 Qed.
+
+Lemma twf_plain s b : twf s (KPlain b). Proof. constructor. Qed.
 
 Lemma inst_plain_wf c s ci s' : QWF s -> inst c KPlain s = (ci, s') -> QWF s' /\ sle s s' /\ cwf s' ci.
 Proof.
   intros H. unfold inst. destruct (take_caps (clo_caps c) s) as [caps s1] eqn:T. intros E; inversion E; subst. clear E.
   destruct (take_caps_wf _ _ _ _ H T) as (H1 & N1 & T1 & L1).
   assert (LC : lwf s1 caps) by (eapply nsf_same; [| |exact L1]; auto).
-  destruct (created_wf s1 (clo_id c) (KPlain (clo_body c)) caps H1 LC) as (A & B & C). rewrite N1 in A, B, C.
+  destruct (created_wf s1 (clo_id c) (KPlain (clo_body c)) caps H1 LC (twf_plain _ _)) as (A & B & C). rewrite N1 in A, B, C.
   split; [exact A|]. split; [eapply sle_trans; [apply sle_same; eauto | exact B] | exact C].
 Qed.
 
-Lemma inst_call_wf c mk s ci s' : QWF s -> inst_call c mk s = (ci, s') ->
+Lemma inst_call_wf c mk s ci s' : QWF s -> twf s (mk (clo_body c)) -> inst_call c mk s = (ci, s') ->
   QWF s' /\ sle s s' /\ cwf s' ci /\ ci_kind ci = mk (clo_body c) /\ ci_sq ci = None.
 Proof.
-  intros H. unfold inst_call, inst. destruct (take_caps (clo_caps c) s) as [caps s1] eqn:T. intros E; inversion E; subst. clear E.
+  intros H TW. unfold inst_call, inst. destruct (take_caps (clo_caps c) s) as [caps s1] eqn:T. intros E; inversion E; subst. clear E.
   destruct (take_caps_wf _ _ _ _ H T) as (H1 & N1 & T1 & L1).
   assert (LC : lwf s1 caps) by (eapply nsf_same; [| |exact L1]; auto).
-  destruct (created_wf s1 (clo_id c) (mk (clo_body c)) caps H1 LC) as (A & B & C). rewrite N1 in A, B, C.
+  assert (TW1 : twf s1 (mk (clo_body c))) by (eapply nsf_same; [| |exact TW]; auto).
+  destruct (created_wf s1 (clo_id c) (mk (clo_body c)) caps H1 LC TW1) as (A & B & C). rewrite N1 in A, B, C.
   split; [exact A|]. split; [eapply sle_trans; [apply sle_same; eauto | exact B]|]. split; [exact C|]. split; reflexivity.
 Qed.
 
-Lemma inst_nocaps_wf c mk s ci s' : QWF s -> inst_nocaps c mk s = (ci, s') ->
+Lemma inst_nocaps_wf c mk s ci s' : QWF s -> twf s (mk (clo_body c)) -> inst_nocaps c mk s = (ci, s') ->
   QWF (target_ev s' ci) /\ sle s (target_ev s' ci) /\ cwf (target_ev s' ci) ci /\ ci_kind ci = mk (clo_body c).
 Proof.
-  intros H. unfold inst_nocaps. intros E; inversion E; subst. clear E.
-  destruct (created_wf s (clo_id c) (mk (clo_body c)) [] H (lwf_nil s)) as (A & B & C).
+  intros H TW. unfold inst_nocaps. intros E; inversion E; subst. clear E.
+  destruct (created_wf s (clo_id c) (mk (clo_body c)) [] H (lwf_nil s) TW) as (A & B & C).
   split; [exact A|]. split; [exact B|]. split; [exact C | reflexivity].
 Qed.
 
@@ -545,7 +600,7 @@ Proof.
   assert (L : sle s (emit (set_nuid s1 (nuid s1 + 1)%N) (EClo (nuid s1) (clo_id c)))).
   { split; [simpl; lia|]. exists [EClo (nuid s1) (clo_id c)]. split; [simpl; rewrite T1; reflexivity | apply fresh_notgt; reflexivity]. }
   split; [qe; apply Q_set_nuid; auto; lia|]. split; auto.
-  apply cwf_intro; [simpl; lia | eapply nsf_mono; eauto |]. simpl. rewrite T1. rewrite <- T1. apply (w_tgts _ H1). lia.
+  apply cwf_intro; [simpl; lia | eapply nsf_mono; eauto | | constructor]. simpl. rewrite T1. rewrite <- T1. apply (w_tgts _ H1). lia.
 Qed.
 
 Lemma tok_script_wf script : forall s, QWF s -> QWF (tok_script s script) /\ sle s (tok_script s script).
@@ -557,16 +612,65 @@ Proof.
     split; auto. eapply sle_trans; [exact L1|]. eapply sle_trans; [apply sle_submit | exact L2].
 Qed.
 
+(* the same without the existence of the target (for the calculi that only need the item itself) *)
+Lemma created_wf0 s1 cid k caps :
+  QWF s1 -> lwf s1 caps ->
+  let u := nuid s1 in
+  let s' := target_ev (emit (set_nuid s1 (u + 1)%N) (EClo u cid)) (CI u cid k caps None) in
+  QWF s' /\ sle s1 s' /\ iwf s' (CI u cid k caps None).
+Proof.
+  intros H L u s'.
+  assert (SL : sle s1 s').
+  { unfold s', target_ev. destruct k; (split; [simpl; lia|]).
+    all: try (exists [EClo u cid]; split; [reflexivity | apply fresh_notgt; reflexivity]).
+    - exists [ETarget u a false; EClo u cid]. split; [reflexivity|]. intros u' a' p' [E|[E|[]]]; inversion E; subst. unfold u. simpl. lia.
+    - exists [ETarget u a true; EClo u cid]. split; [reflexivity|]. intros u' a' p' [E|[E|[]]]; inversion E; subst. unfold u. simpl. lia. }
+  assert (Q : QWF s').
+  { eapply QWF_transport; [exact H | exact SL | ..]; unfold s', target_ev; destruct k; reflexivity. }
+  split; auto. split; auto. split.
+  - unfold s', target_ev. destruct k; simpl; lia.
+  - unfold s', target_ev. destruct k; simpl; auto; try (rewrite N.eqb_refl; reflexivity). apply (w_tgts _ H). unfold u. lia.
+Qed.
+
+Lemma inst_call_wf0 c mk s ci s' : QWF s -> inst_call c mk s = (ci, s') ->
+  QWF s' /\ sle s s' /\ iwf s' ci /\ ci_kind ci = mk (clo_body c) /\ ci_sq ci = None.
+Proof.
+  intros H. unfold inst_call, inst. destruct (take_caps (clo_caps c) s) as [caps s1] eqn:T. intros E; inversion E; subst. clear E.
+  destruct (take_caps_wf _ _ _ _ H T) as (H1 & N1 & T1 & L1).
+  assert (LC : lwf s1 caps) by (eapply nsf_same; [| |exact L1]; auto).
+  destruct (created_wf0 s1 (clo_id c) (mk (clo_body c)) caps H1 LC) as (A & B & C). rewrite N1 in A, B, C.
+  split; [exact A|]. split; [eapply sle_trans; [apply sle_same; eauto | exact B]|]. split; [exact C|]. split; reflexivity.
+Qed.
+
+Lemma inst_nocaps_wf0 c mk s ci s' : QWF s -> inst_nocaps c mk s = (ci, s') ->
+  QWF (target_ev s' ci) /\ sle s (target_ev s' ci) /\ iwf (target_ev s' ci) ci /\ ci_kind ci = mk (clo_body c).
+Proof.
+  intros H. unfold inst_nocaps. intros E; inversion E; subst. clear E.
+  destruct (created_wf0 s (clo_id c) (mk (clo_body c)) [] H (lwf_nil s)) as (A & B & C).
+  split; [exact A|]. split; [exact B|]. split; [exact C | reflexivity].
+Qed.
+
+Lemma handle_actor_wf s v p : vwf s v -> handle_actor v = Some p -> nwf s (NAct p).
+Proof. unfold vwf, nsf. destruct v; simpl; try discriminate; intros F E; inversion E; subst; exact (Forall_inv F). Qed.
+
+Lemma twf_meth s a b arg : nwf s (NAct a) -> twf s (KMeth a b arg).
+Proof. intros H. constructor; [exact H | constructor]. Qed.
+Lemma twf_prep s a b r : nwf s (NAct a) -> twf s (KPrep a b r).
+Proof. intros H. constructor; [exact H | constructor]. Qed.
+
 Lemma mk_notifier_wf s a n r s' : QWF s -> mk_notifier s a n = (r, s') -> QWF s' /\ sle s s' /\ rwf s' r.
 Proof.
   intros H. unfold mk_notifier. destruct n as [[hp c]|].
-  - destruct (lookup s hp) as [v|].
-    + destruct (handle_actor v) as [p|].
+  - destruct (lookup s hp) as [v|] eqn:LK.
+    + destruct (handle_actor v) as [p|] eqn:HA.
       * destruct (inst_call c (fun b => KMeth p b None) (ref_clone s p)) as [ci s2] eqn:I.
         intros E; inversion E; subst.
-        destruct (inst_call_wf _ _ _ _ _ (Q_ref_clone _ p H) I) as (H2 & L2 & C2 & K2 & Q2).
+        pose proof (handle_actor_wf _ _ _ (lookup_wf _ _ _ H LK) HA) as NP.
+        assert (NP1 : nwf (ref_clone s p) (NAct p)) by (eapply nwf_mono; [apply sle_ref_clone | exact NP]).
+        destruct (inst_call_wf _ _ _ _ _ (Q_ref_clone _ p H) (twf_meth _ _ _ _ NP1) I) as (H2 & L2 & C2 & K2 & Q2).
         split; auto. split; [eapply sle_trans; [apply sle_ref_clone | exact L2]|].
-        unfold rwf, nsf. simpl. constructor; [|exact C2]. simpl. unfold tgt_is. rewrite K2. split; [reflexivity | exact Q2].
+        unfold rwf, nsf. simpl. constructor; [|constructor; [eapply nwf_mono; [exact L2 | exact NP1] | exact C2]].
+        simpl. unfold tgt_is. rewrite K2. split; [reflexivity | exact Q2].
       * intros E; inversion E; subst. split; [qe; auto|]. split; [se | constructor].
     + intros E; inversion E; subst. split; [qe; auto|]. split; [se | constructor].
   - intros E; inversion E; subst. split; auto. split; [apply sle_refl | constructor].
@@ -607,6 +711,9 @@ Proof.
   split; auto. split; [eapply sle_trans; eauto|]. eapply kwf_mono; eauto.
 Qed.
 
+Lemma res_bind0 s s1 h v l s' : sle s s1 -> QWF s1 -> vwf s v -> bind s1 h v = (l, s') -> res_ok s l s'.
+Proof. intros L H V E. eapply res_bind; eauto. eapply nsf_mono; eauto. Qed.
+
 Lemma res_plain_submit c s q ci s1 : QWF s -> inst c KPlain s = (ci, s1) -> res_ok s [] (submit s1 q ci).
 Proof.
   intros H I. destruct (inst_plain_wf _ _ _ _ H I) as (H1 & L1 & C1).
@@ -629,12 +736,21 @@ Proof.
   intros H V. apply var_timer_in' in V. pose proof (w_timers _ H) as W. eapply Forall_forall in W; eauto.
 Qed.
 
-Lemma res_call c mk s0 s ci s2 q : sle s0 s -> QWF s -> inst_call c mk s = (ci, s2) -> res_ok s0 [] (submit s2 q ci).
+Lemma res_call c mk s0 s ci s2 q : sle s0 s -> QWF s -> twf s (mk (clo_body c)) -> inst_call c mk s = (ci, s2) -> res_ok s0 [] (submit s2 q ci).
 Proof.
-  intros L0 H I. destruct (inst_call_wf _ _ _ _ _ H I) as (H2 & L2 & C2 & _).
+  intros L0 H TW I. destruct (inst_call_wf _ _ _ _ _ H TW I) as (H2 & L2 & C2 & _).
   split; [apply Q_submit; auto|]. split; [|apply kwf_nil].
   eapply sle_trans; [exact L0|]. eapply sle_trans; [exact L2 | apply sle_submit].
 Qed.
+
+Lemma new_actor_in s a nt parent vis : In (EActor a) (tr (new_actor s a nt parent vis)).
+Proof. unfold new_actor. destruct vis; simpl; auto. Qed.
+
+Lemma vwf_own s a : In (EActor a) (tr s) -> vwf s (HOwn a). Proof. intros H. constructor; [exact H | constructor]. Qed.
+Lemma vwf_act s a : In (EActor a) (tr s) -> vwf s (HAct a). Proof. intros H. constructor; [exact H | constructor]. Qed.
+Lemma vwf_anon s a : In (EActor a) (tr s) -> vwf s (HAnon a). Proof. intros H. constructor; [exact H | constructor]. Qed.
+Lemma vwf_in s v a : vwf s v -> match v with HOwn b | HAct b | HAnon b => b = a | _ => False end -> In (EActor a) (tr s).
+Proof. unfold vwf, nsf. destruct v; simpl; try contradiction; intros F <-; exact (Forall_inv F). Qed.
 
 Lemma do_act_wf a s l s' : QWF s -> do_act a s = (l, s') -> res_ok s l s'.
 Proof.
@@ -676,13 +792,17 @@ Proof.
     intros E. eapply res_bind; [| | |exact E].
     + eapply sle_trans; [exact L1 | apply sle_new_actor].
     + apply Q_new_actor; auto.
-    + apply vwf_trivial; reflexivity.
-  - (* ACall *) destruct (lookup s h) as [v|]; [|apply res_bad; auto]. destruct (handle_actor v) as [a|]; [|apply res_bad; auto].
+    + apply vwf_own, new_actor_in.
+  - (* ACall *) destruct (lookup s h) as [v|] eqn:LK; [|apply res_bad; auto]. destruct (handle_actor v) as [a|] eqn:HA; [|apply res_bad; auto].
     destruct (inst_call c _ (ref_clone s a)) as [ci s2] eqn:I. intros E; inversion E; subst.
-    eapply res_call; [apply sle_ref_clone | apply Q_ref_clone; auto | eauto].
-  - destruct (lookup s h) as [v|]; [|apply res_bad; auto]. destruct (handle_actor v) as [a|]; [|apply res_bad; auto].
+    pose proof (handle_actor_wf _ _ _ (lookup_wf _ _ _ H LK) HA) as NP.
+    eapply res_call; [apply sle_ref_clone | apply Q_ref_clone; auto | | exact I].
+    apply twf_meth. eapply nwf_mono; [apply sle_ref_clone | exact NP].
+  - destruct (lookup s h) as [v|] eqn:LK; [|apply res_bad; auto]. destruct (handle_actor v) as [a|] eqn:HA; [|apply res_bad; auto].
     destruct (inst_call c _ (ref_clone s a)) as [ci s2] eqn:I. intros E; inversion E; subst.
-    eapply res_call; [apply sle_ref_clone | apply Q_ref_clone; auto | eauto].
+    pose proof (handle_actor_wf _ _ _ (lookup_wf _ _ _ H LK) HA) as NP.
+    eapply res_call; [apply sle_ref_clone | apply Q_ref_clone; auto | | exact I].
+    apply twf_prep. eapply nwf_mono; [apply sle_ref_clone | exact NP].
   - (* AStop *) destruct (frames s) as [|[cx loc die] rest] eqn:F; [apply res_bad; auto|]. destruct cx; try (apply res_bad; auto).
     intros E; inversion E; subst. split; [|split; [eapply sle_trans; [|se]; apply sle_same; reflexivity | apply kwf_nil]].
     qe; apply Q_set_frames; auto. pose proof (w_frames _ H) as W. rewrite F in W. inversion W; subst. constructor; auto.
@@ -694,32 +814,33 @@ Proof.
     split; [qe; auto|]. split; [se | apply kwf_one_plain; reflexivity].
   - (* AKillAsync *) destruct (lookup s h) as [[]|]; try (apply res_bad; auto).
     destruct (aget (actors s) a) as [x|] eqn:AX; [|apply res_bad; auto]. intros E; inversion E; subst.
-    assert (H1 : QWF (upd_actor s a (with_strong x (oz (count_inc (a_strong x)))))) by (apply Q_upd_actor; auto; apply (w_actors _ H _ _ AX)).
+    assert (H1 : QWF (upd_actor s a (with_strong x (oz (count_inc (a_strong x)))))) by (apply Q_upd_actor; eauto; apply (w_actors _ H _ _ AX)).
     split; [|split; [|apply kwf_nil]].
-    + apply Q_push_main. qe; apply Q_ref_clone; auto. apply cwf_intro; simpl; auto; [|apply lwf_nil].
-      pose proof (w_nuid _ (Q_ref_clone _ a H1)). lia.
+    + apply Q_push_main. qe; apply Q_ref_clone; auto. apply cwf_intro; [ | apply lwf_nil | exact Logic.I | constructor].
+      simpl. pose proof (w_nuid _ (Q_ref_clone _ a H1)). lia.
     + eapply sle_trans; [apply sle_upd_actor|]. eapply sle_trans; [apply sle_ref_clone|]. eapply sle_trans; [ | apply sle_push_main]; [se].
-  - (* AOwned *) destruct (lookup s h) as [[]|]; try (apply res_bad; auto).
+  - (* AOwned *) destruct (lookup s h) as [[]|] eqn:LK; try (apply res_bad; auto).
     destruct (aget (actors s) a) as [x|] eqn:AX; [|apply res_bad; auto]. intros E.
-    assert (H1 : QWF (upd_actor s a (with_strong x (oz (count_inc (a_strong x)))))) by (apply Q_upd_actor; auto; apply (w_actors _ H _ _ AX)).
-    eapply res_bind; [| | |exact E].
+    assert (H1 : QWF (upd_actor s a (with_strong x (oz (count_inc (a_strong x)))))) by (apply Q_upd_actor; eauto; apply (w_actors _ H _ _ AX)).
+    eapply res_bind0; [| | |exact E].
     + eapply sle_trans; [apply sle_upd_actor|]. eapply sle_trans; [apply sle_ref_clone | se].
     + qe; apply Q_ref_clone; auto.
-    + apply vwf_trivial; reflexivity.
-  - (* AClone *) destruct (lookup s h) as [[a|a|a|r|f|t sc]|]; try (apply res_bad; auto).
-    + intros E. eapply res_bind; [ | | | exact E]; [apply sle_ref_clone | apply Q_ref_clone; auto | apply vwf_trivial; reflexivity].
-    + intros E. eapply res_bind; [ | | | exact E]; [apply sle_ref_clone | apply Q_ref_clone; auto | apply vwf_trivial; reflexivity].
-    + destruct (aget (fwds s) f) as [[rc k tg]|]; [|apply res_bad; auto].
-      intros E. eapply res_bind; [ | | | exact E]; [apply sle_same; reflexivity | apply Q_set_fwds; auto | apply vwf_trivial; reflexivity].
-  - (* AAnon *) destruct (lookup s h) as [[]|]; try (apply res_bad; auto).
+    + apply vwf_own. exact (vwf_in _ _ a (lookup_wf _ _ _ H LK) eq_refl).
+  - (* AClone *) destruct (lookup s h) as [[a|a|a|r|f|t sc]|] eqn:LK; try (apply res_bad; auto).
+    + intros E. eapply res_bind0; [ | | | exact E]; [apply sle_ref_clone | apply Q_ref_clone; auto | apply vwf_act; exact (vwf_in _ _ a (lookup_wf _ _ _ H LK) eq_refl)].
+    + intros E. eapply res_bind0; [ | | | exact E]; [apply sle_ref_clone | apply Q_ref_clone; auto | apply vwf_act; exact (vwf_in _ _ a (lookup_wf _ _ _ H LK) eq_refl)].
+    + destruct (aget (fwds s) f) as [[rc k tg]|] eqn:FG; [|apply res_bad; auto].
+      intros E. eapply res_bind; [ | | | exact E]; [apply sle_same; reflexivity | apply Q_set_fwds; auto; eapply fwf_same; [exact (w_fwds _ H) | exact FG] | apply vwf_trivial; reflexivity].
+  - (* AAnon *) destruct (lookup s h) as [[]|] eqn:LK; try (apply res_bad; auto).
     destruct (take s h) as [o s1] eqn:T. destruct (take_wf _ _ _ _ H T) as (H1 & N1 & T1 & _).
-    intros E. eapply res_bind; [ | | | exact E]; [apply sle_same; auto | exact H1 | apply vwf_trivial; reflexivity].
+    intros E. eapply res_bind0; [ | | | exact E]; [apply sle_same; auto | exact H1 | apply vwf_anon; exact (vwf_in _ _ a (lookup_wf _ _ _ H LK) eq_refl)].
   - (* AStore *) destruct (cur_ctx s) as [|a pr|]; try (apply res_bad; auto). destruct pr; try (apply res_bad; auto).
     destruct (aget (actors s) a) as [x|] eqn:AX; [|apply res_bad; auto].
     destruct (a_state x) as [|sh slab nx|] eqn:SX; try (apply res_bad; auto).
     destruct (take s h) as [[v|] s1] eqn:T; destruct (take_wf _ _ _ _ H T) as (H1 & N1 & T1 & V1); intros E; inversion E; subst.
     + split; [|split; [eapply sle_trans; [apply sle_same; eauto | apply sle_upd_actor] | apply kwf_nil]].
-      apply Q_upd_actor; auto. pose proof (w_actors _ H _ _ AX) as [A1 A2]. rewrite SX in A1.
+      apply Q_upd_actor; [exact H1 | | exists x; rewrite (take_actors _ _ _ _ T); exact AX].
+      pose proof (w_actors _ H _ _ AX) as [A1 A2]. rewrite SX in A1.
       assert (LS : sle s s1) by (apply sle_same; auto).
       split; simpl.
       * apply lwf_app. split; [eapply nsf_mono; eauto|]. apply lwf_cons. split; [eapply nsf_mono; [exact LS | apply V1; auto] | apply lwf_nil].
@@ -739,17 +860,19 @@ Proof.
     set (s3 := new_actor (ref_clone s1 p) a (Ret a (RKSlab p key inner)) (a_logid px) false).
     assert (L2 : sle s1 (ref_clone s1 p)) by apply sle_ref_clone.
     assert (H3 : QWF s3).
-    { unfold s3. apply Q_new_actor. apply Q_ref_clone; auto. unfold rwf. simpl. eapply nsf_mono; [exact L2 | exact R1]. }
+    { unfold s3. apply Q_new_actor. apply Q_ref_clone; auto. unfold rwf. simpl. eapply nsf_mono; [exact L2|]. constructor; [|exact R1].
+      simpl. eapply ext_in; [apply sle_ext; exact L1 | eapply (w_ae _ H); eauto]. }
     assert (L3 : sle s s3).
     { eapply sle_trans; [exact L1|]. eapply sle_trans; [exact L2 | apply sle_new_actor]. }
     set (s4 := ref_clone s3 a).
     assert (H4 : QWF s4) by (apply Q_ref_clone; auto).
     assert (L4 : sle s s4) by (eapply sle_trans; [exact L3 | apply sle_ref_clone]).
-    intros E. eapply res_bind; [ | | | exact E]; [| | apply vwf_trivial; reflexivity].
+    assert (IA : In (EActor a) (tr s4)) by (unfold s4, s3; eapply ext_in; [apply sle_ext, sle_ref_clone | apply new_actor_in]).
+    intros E. eapply res_bind; [ | | | exact E]; [| | apply vwf_act; simpl; right; destruct (aget (actors s4) p); exact IA].
     + eapply sle_trans; [|se].
       destruct (aget (actors s4) p); [eapply sle_trans; [exact L4 | apply sle_upd_actor] | exact L4].
     + qe. destruct (aget (actors s4) p) as [px'|] eqn:AP'; auto.
-      apply Q_upd_actor; auto. pose proof (w_actors _ H4 _ _ AP') as [A1 A2].
+      apply Q_upd_actor; eauto. pose proof (w_actors _ H4 _ _ AP') as [A1 A2].
       pose proof (w_actors _ H _ _ AP) as [B1 B2]. rewrite SP in B1.
       split; simpl; auto. eapply nsf_mono; eauto.
   - (* ASlabLen *) destruct (cur_ctx s) as [|a pr|]; try (apply res_bad; auto). destruct pr; try (apply res_bad; auto).
@@ -763,21 +886,27 @@ Proof.
       * eapply sle_trans; [apply sle_same; eauto | se].
       * qe; auto.
       * unfold vwf, nsf. simpl. constructor; [exact I|]. eapply nsf_mono; [|exact L1]. eapply sle_trans; [apply sle_same; eauto | se].
-    + destruct (lookup s ht) as [v|]; [|apply res_bad; auto]. destruct (handle_actor v) as [a|]; [|apply res_bad; auto].
+    + destruct (lookup s ht) as [v|] eqn:LK; [|apply res_bad; auto]. destruct (handle_actor v) as [a|] eqn:HA; [|apply res_bad; auto].
       destruct (inst_call c _ (ref_clone s a)) as [ci s2] eqn:I.
-      destruct (inst_call_wf _ _ _ _ _ (Q_ref_clone _ a H) I) as (H2 & L2 & C2 & K2 & Q2).
+      pose proof (handle_actor_wf _ _ _ (lookup_wf _ _ _ H LK) HA) as NP.
+      assert (NP1 : nwf (ref_clone s a) (NAct a)) by (eapply nwf_mono; [apply sle_ref_clone | exact NP]).
+      destruct (inst_call_wf _ _ _ _ _ (Q_ref_clone _ a H) (twf_meth _ _ _ _ NP1) I) as (H2 & L2 & C2 & K2 & Q2).
       intros E. eapply res_bind; [| | |exact E].
       * eapply sle_trans; [apply sle_ref_clone|]. eapply sle_trans; [exact L2|]. eapply sle_trans; se.
       * qe; qe; auto.
       * unfold vwf, nsf. simpl. constructor; [exact Logic.I|]. constructor; [simpl; unfold tgt_is; rewrite K2; split; [reflexivity | exact Q2]|].
+        constructor; [eapply nwf_mono; [|exact NP1]; eapply sle_trans; [exact L2|]; eapply sle_trans; se|].
         eapply nsf_mono; [|exact C2]. eapply sle_trans; se.
-    + destruct (lookup s ht) as [v|]; [|apply res_bad; auto]. destruct (handle_actor v) as [a|]; [|apply res_bad; auto].
+    + destruct (lookup s ht) as [v|] eqn:LK; [|apply res_bad; auto]. destruct (handle_actor v) as [a|] eqn:HA; [|apply res_bad; auto].
       destruct (inst_call c _ (ref_clone s a)) as [ci s2] eqn:I.
-      destruct (inst_call_wf _ _ _ _ _ (Q_ref_clone _ a H) I) as (H2 & L2 & C2 & K2 & Q2).
+      pose proof (handle_actor_wf _ _ _ (lookup_wf _ _ _ H LK) HA) as NP.
+      assert (NP1 : nwf (ref_clone s a) (NAct a)) by (eapply nwf_mono; [apply sle_ref_clone | exact NP]).
+      destruct (inst_call_wf _ _ _ _ _ (Q_ref_clone _ a H) (twf_meth _ _ _ _ NP1) I) as (H2 & L2 & C2 & K2 & Q2).
       intros E. eapply res_bind; [| | |exact E].
       * eapply sle_trans; [apply sle_ref_clone|]. eapply sle_trans; [exact L2|]. eapply sle_trans; se.
       * qe; qe; auto.
       * unfold vwf, nsf. simpl. constructor; [exact Logic.I|]. constructor; [simpl; unfold tgt_is; rewrite K2; split; [reflexivity | exact Q2]|].
+        constructor; [eapply nwf_mono; [|exact NP1]; eapply sle_trans; [exact L2|]; eapply sle_trans; se|].
         eapply nsf_mono; [|exact C2]. eapply sle_trans; se.
   - (* ARetSend *) destruct (lookup s h) as [[a|a|a|[rid rk]|f|t sc]|] eqn:LK; try (apply res_bad; auto).
     destruct (take s h) as [o s1] eqn:T. destruct (take_wf _ _ _ _ H T) as (H1 & N1 & T1 & _).
@@ -787,22 +916,27 @@ Proof.
   - (* ANewFwd *) destruct (aget (fwds s) f); [apply res_bad; auto|]. destruct k as [body|ht c].
     + intros E. eapply res_bind; [ | | | exact E]; [| | apply vwf_trivial; reflexivity].
       * eapply sle_trans; [|se]. apply sle_same; reflexivity.
-      * qe; apply Q_set_fwds; auto.
-    + destruct (lookup s ht) as [v|]; [|apply res_bad; auto]. destruct (handle_actor v) as [a|]; [|apply res_bad; auto].
+      * qe; apply Q_set_fwds; auto. apply fwf_aset; [exact (w_fwds _ H) | exact Logic.I].
+    + destruct (lookup s ht) as [v|] eqn:LK; [|apply res_bad; auto]. destruct (handle_actor v) as [a|] eqn:HA; [|apply res_bad; auto].
+      pose proof (handle_actor_wf _ _ _ (lookup_wf _ _ _ H LK) HA) as NP. simpl in NP.
       intros E. eapply res_bind; [ | | | exact E]; [| | apply vwf_trivial; reflexivity].
       * eapply sle_trans; [apply sle_ref_clone | apply sle_same; reflexivity].
-      * apply Q_set_fwds, Q_ref_clone; auto.
+      * apply Q_set_fwds; [apply Q_ref_clone; auto|].
+        assert (X : ext s (ref_clone s a)) by apply sle_ext, sle_ref_clone.
+        apply fwf_aset; [|eapply ext_in; eauto]. intros g rc' k' b G. eapply ext_in; [exact X|]. eapply (w_fwds _ H). 
+        replace (fwds s) with (fwds (ref_clone s a)); [exact G|]. unfold ref_clone. destruct (aget (actors s) a) as [x|]; [destruct (a_freed x)|]; reflexivity.
   - (* AFwdSend *) destruct (lookup s h) as [[a|a|a|r|f|t sc]|]; try (apply res_bad; auto).
-    destruct (aget (fwds s) f) as [[rc [body|ht c] tg]|]; try (apply res_bad; auto).
+    destruct (aget (fwds s) f) as [[rc [body|ht c] tg]|] eqn:FG; try (apply res_bad; auto).
     + intros E; inversion E; subst. split; [|split].
-      * unfold push_frame. apply Q_set_frames. qe; apply Q_set_fwds; auto.
+      * unfold push_frame. apply Q_set_frames. qe; apply Q_set_fwds; auto. eapply fwf_same; [exact (w_fwds _ H) | exact FG].
         constructor; [simpl; apply lwf_nil|]. pose proof (w_frames _ H) as W.
         eapply Forall_impl; [|exact W]. intros fr. apply nsf_mono. eapply sle_trans; [|se]. apply sle_same; reflexivity.
       * eapply sle_trans; [|apply sle_same; reflexivity]. eapply sle_trans; [|se]. apply sle_same; reflexivity.
       * constructor; [unfold mwf; simpl; constructor|]. constructor; [unfold mwf; simpl; constructor|]. apply kwf_one_plain. reflexivity.
     + destruct tg as [a|]; [|apply res_bad; auto].
       destruct (inst_nocaps c _ (ref_clone s a)) as [ci s2] eqn:I.
-      destruct (inst_nocaps_wf _ _ _ _ _ (Q_ref_clone _ a H) I) as (H2 & L2 & C2 & _).
+      assert (NP1 : nwf (ref_clone s a) (NAct a)) by (eapply nwf_mono; [apply sle_ref_clone | exact (w_fwds _ H _ _ _ _ FG)]).
+      destruct (inst_nocaps_wf _ _ _ _ _ (Q_ref_clone _ a H) (twf_meth _ _ _ _ NP1) I) as (H2 & L2 & C2 & _).
       intros E; inversion E; subst. split; [apply Q_submit; auto|]. split; [|apply kwf_nil].
       eapply sle_trans; [apply sle_ref_clone|]. eapply sle_trans; [exact L2 | apply sle_submit].
   - (* ANewTok *) intros E. eapply res_bind; [ | | | exact E]; [se | qe; auto | apply vwf_trivial; reflexivity].
@@ -850,13 +984,13 @@ Qed.
 
 Lemma cwf_as_call s a ci arg : cwf s ci -> tgt_is ci a -> cwf s (as_call a ci arg).
 Proof.
-  rewrite !cwf_iff. intros [[A B] C] [T _]. destruct ci as [u c k caps q]. simpl in *.
-  destruct k; try contradiction. subst a0. split; auto. split; auto.
+  rewrite !cwf_iff. intros [[A B] [C D]] [T _]. destruct ci as [u c k caps q]. simpl in *.
+  destruct k; try contradiction. subst a0. split; [split; auto|]. split; auto.
 Qed.
 
-Lemma internal_wf s k : QWF s -> match k with KSlabRm _ _ | KTerm _ | KKill _ _ => True | _ => False end -> cwf s (CI 0 0 k [] None).
+Lemma internal_wf s k : QWF s -> match k with KSlabRm _ _ | KTerm _ | KKill _ _ => True | _ => False end -> twf s k -> cwf s (CI 0 0 k [] None).
 Proof.
-  intros H K. apply cwf_intro; [pose proof (w_nuid _ H); lia | apply lwf_nil | destruct k; auto; contradiction].
+  intros H K T. apply cwf_intro; [pose proof (w_nuid _ H); lia | apply lwf_nil | destruct k; auto; contradiction | exact T].
 Qed.
 
 Lemma push_frame_wf s c loc : QWF s -> lwf s loc -> QWF (push_frame s c loc).
@@ -876,7 +1010,7 @@ Proof.
     + apply kwf_plain. intros m [<-|[<-|[]]]; reflexivity.
   - destruct (aget (actors s) a) as [x|] eqn:AX.
     + pose proof (w_actors _ H _ _ AX) as [A1 A2]. destruct (a_state x) eqn:SX; intros E; inversion E; subst.
-      * split; [|split; [apply sle_upd_actor | apply kwf_nil]]. apply Q_upd_actor; auto. split; simpl; auto.
+      * split; [|split; [apply sle_upd_actor | apply kwf_nil]]. apply Q_upd_actor; eauto. split; simpl; auto.
         apply qwf_app. split; auto. constructor; auto.
       * split; [|split; [eapply sle_trans; [ | apply sle_push_frame]; [se]|]].
         -- apply push_frame_wf. qe; auto. eapply nsf_mono; [se | exact LC].
@@ -885,19 +1019,21 @@ Proof.
     + intros E; inversion E; subst. split; [qe; auto|]. split; [se|].
       constructor; [|constructor]. unfold mwf; simpl. eapply nsf_mono; [se | exact C].
   - destruct (aget (actors s) a) as [x|] eqn:AX.
-    + destruct (ob (count_is_prep (a_strong x))); intros E; inversion E; subst.
+    + assert (TA : In (EActor a) (tr s)) by (apply cwf_iff in C as (_ & _ & TW); exact (Forall_inv TW)).
+      destruct (ob (count_is_prep (a_strong x))); intros E; inversion E; subst.
       * split; [|split; [eapply sle_trans; [ | apply sle_push_frame]; [se]|]].
         -- apply push_frame_wf. qe; auto. eapply nsf_mono; [se | exact LC].
-        -- apply kwf_plain. intros m [<-|[<-|[<-|[]]]]; reflexivity.
+        -- constructor; [constructor|]. constructor; [|apply kwf_one_plain; reflexivity].
+           constructor; [simpl; right; exact TA | constructor].
       * split; auto. split; [apply sle_refl|]. constructor; [exact C|]. apply kwf_one_plain. reflexivity.
     + intros E; inversion E; subst. split; [qe; auto|]. split; [se|].
       constructor; [|constructor]. unfold mwf; simpl. eapply nsf_mono; [se | exact C].
   - destruct (aget (actors s) p) as [x|] eqn:AX.
     + pose proof (w_actors _ H _ _ AX) as [A1 A2]. destruct (a_state x) eqn:SX.
-      * intros E; inversion E; subst. split; [|split; [apply sle_upd_actor | apply kwf_nil]]. apply Q_upd_actor; auto. split; simpl; auto.
+      * intros E; inversion E; subst. split; [|split; [apply sle_upd_actor | apply kwf_nil]]. apply Q_upd_actor; eauto. split; simpl; auto.
         apply qwf_app. split; auto. constructor; auto.
       * destruct (nth_error slab (N.to_nat key)) as [[child|nx]|]; intros E; inversion E; subst.
-        -- split; [|split; [apply sle_upd_actor | apply kwf_plain; intros m [<-|[<-|[]]]; reflexivity]]. apply Q_upd_actor; auto. split; simpl; auto.
+        -- split; [|split; [apply sle_upd_actor | apply kwf_plain; intros m [<-|[<-|[]]]; reflexivity]]. apply Q_upd_actor; eauto. split; simpl; auto.
         -- split; [qe; auto|]. split; [se | apply kwf_one_plain; reflexivity].
         -- split; [qe; auto|]. split; [se | apply kwf_one_plain; reflexivity].
       * intros E; inversion E; subst. split; auto. split; [apply sle_refl | apply kwf_one_plain; reflexivity].
@@ -924,25 +1060,26 @@ Proof.
   - intros E; inversion E; subst. split; [|split; [eapply sle_trans; [ | apply sle_push_frame]; [se]|]].
     + apply push_frame_wf. qe; auto. eapply nsf_mono; [se | exact R].
     + apply kwf_plain. intros x [<-|[<-|[]]]; reflexivity.
-  - inversion R as [|? ? T C]; subst. simpl in T. intros E; inversion E; subst.
+  - inversion R as [|? ? T C0]; subst. inversion C0 as [|? ? TA C]; subst. simpl in T. intros E; inversion E; subst.
     split; [|split; [eapply sle_trans; [ | apply sle_submit]; [se] | apply kwf_nil]].
     apply Q_submit. qe; auto. apply cwf_as_call; auto; try (eapply nsf_mono; [se | exact C]).
-  - inversion R as [|? ? T C]; subst. simpl in T. destruct m as [mm|]; intros E; inversion E; subst.
+  - inversion R as [|? ? T C0]; subst. inversion C0 as [|? ? TA C]; subst. simpl in T. destruct m as [mm|]; intros E; inversion E; subst.
     + split; [|split; [eapply sle_trans; [ | apply sle_submit]; [se] | apply kwf_nil]].
       apply Q_submit. qe; auto. apply cwf_as_call; auto; try (eapply nsf_mono; [se | exact C]).
     + split; [qe; auto|]. split; [se|].
       constructor; [unfold mwf; simpl; constructor|]. constructor; [|constructor]. unfold mwf; simpl. eapply nsf_mono; [se | exact C].
   - destruct inner as [[p ci]|]; intros E; inversion E; subst.
-    + inversion R as [|? ? T C]; subst. simpl in T.
+    + inversion R as [|? ? T C0]; subst. inversion C0 as [|? ? TA C]; subst. simpl in T.
       split; [|split; [eapply sle_trans; [ | apply sle_submit]; [se] | apply kwf_nil]].
       apply Q_submit. qe; auto. apply cwf_as_call; auto; try (eapply nsf_mono; [se | exact C]).
     + split; [qe; auto|]. split; [se | apply kwf_nil].
   - destruct m as [mm|]; intros E; inversion E; subst.
     + split; [|split; [eapply sle_trans; [apply sle_ref_clone | apply sle_push_main]|]].
-      * apply Q_push_main. apply Q_ref_clone; auto. apply internal_wf; [apply Q_ref_clone; auto | exact I].
+      * apply Q_push_main. apply Q_ref_clone; auto. apply internal_wf; [apply Q_ref_clone; auto | exact I|].
+        constructor; [|constructor]. eapply nwf_mono; [apply sle_ref_clone | exact (Forall_inv R)].
       * constructor; [|apply kwf_one_plain; reflexivity]. unfold mwf; simpl.
-        eapply nsf_mono; [|exact R]. eapply sle_trans; [apply sle_ref_clone | apply sle_push_main].
-    + split; auto. split; [apply sle_refl|]. constructor; [unfold mwf; simpl; constructor|]. constructor; [exact R | constructor].
+        eapply nsf_mono; [|exact (Forall_inv_tail R)]. eapply sle_trans; [apply sle_ref_clone | apply sle_push_main].
+    + split; auto. split; [apply sle_refl|]. constructor; [unfold mwf; simpl; constructor|]. constructor; [exact (Forall_inv_tail R) | constructor].
 Qed.
 
 Lemma terminate_wf a c s l s' : QWF s -> terminate a c s = (l, s') -> res_ok s l s'.
@@ -953,7 +1090,7 @@ Proof.
     set (s0 := if a_freed x then emit s (EModel M_UAF a) else s).
     assert (L0 : sle s s0) by (unfold s0; destruct (a_freed x); [se | apply sle_refl]).
     assert (H0 : QWF s0) by (unfold s0; destruct (a_freed x); [qe; auto | auto]).
-    assert (H1 : QWF (upd_actor s0 a x1)) by (apply Q_upd_actor; auto; split; exact I).
+    assert (H1 : QWF (upd_actor s0 a x1)) by (apply Q_upd_actor; [exact H0 | split; exact I | exists x; unfold s0; destruct (a_freed x); exact AX]).
     assert (L1 : sle s (upd_actor s0 a x1)) by (eapply sle_trans; [exact L0 | apply sle_upd_actor]).
     destruct (state_drops a (a_state x) (upd_actor s0 a x1)) as [dl s1] eqn:SD.
     destruct (state_drops_wf a x _ _ _ (awf_mono _ _ _ L1 AW) SD) as [-> KD].
@@ -972,10 +1109,10 @@ Proof.
   assert (H0 : QWF s0) by (unfold s0; destruct b; [qe; auto | auto]).
   destruct (aget (actors s0) a) as [x|] eqn:AX.
   - pose proof (w_actors _ H0 _ _ AX) as AW. destruct (count_dec (a_strong x)) as [[v z]|].
-    + assert (H1 : QWF (upd_actor s0 a (with_strong x v))) by (apply Q_upd_actor; auto).
+    + assert (H1 : QWF (upd_actor s0 a (with_strong x v))) by (apply Q_upd_actor; eauto).
       destruct z; intros E; inversion E; subst.
       * split; [|split; [|apply kwf_one_plain; reflexivity]].
-        -- apply Q_push_main. apply Q_ref_clone; auto. apply internal_wf; [apply Q_ref_clone; auto | exact I].
+        -- apply Q_push_main. apply Q_ref_clone; auto. apply internal_wf; [apply Q_ref_clone; auto | exact I | constructor].
         -- eapply sle_trans; [exact L0|]. eapply sle_trans; [apply sle_upd_actor|]. eapply sle_trans; [apply sle_ref_clone | apply sle_push_main].
       * split; auto. split; [eapply sle_trans; [exact L0 | apply sle_upd_actor] | apply kwf_one_plain; reflexivity].
     + intros E; inversion E; subst. split; [qe; auto|]. split; [eapply sle_trans; [exact L0 | se] | apply kwf_one_plain; reflexivity].
@@ -992,13 +1129,13 @@ Proof.
       * set (x1 := mkActor SZombie (oz (count_set_state (a_strong x) STATE_ZOMBIE)) v None (a_logid x) true).
         set (s1 := emit (upd_actor s a x1) (EModel M_FREE_ACTOR a)).
         assert (L1 : sle s s1) by (eapply sle_trans; [apply sle_upd_actor | se]).
-        assert (H1 : QWF s1) by (qe; apply Q_upd_actor; auto; split; exact I).
+        assert (H1 : QWF s1) by (qe; apply Q_upd_actor; eauto; split; exact I).
         destruct (state_drops a (a_state x) s1) as [dl s2] eqn:SD.
         destruct (state_drops_wf a x _ _ _ (awf_mono _ _ _ L1 AW) SD) as [-> KD].
         intros E; inversion E; subst. split; auto. split; auto. apply kwf_app. split; auto.
         destruct AW as [_ AN]. destruct (a_notify x) as [nt|]; [|constructor].
         constructor; [|constructor]. unfold mwf; simpl. eapply nsf_mono; eauto.
-      * intros E; inversion E; subst. split; [apply Q_upd_actor; auto|]. split; [apply sle_upd_actor | apply kwf_nil].
+      * intros E; inversion E; subst. split; [apply Q_upd_actor; eauto|]. split; [apply sle_upd_actor | apply kwf_nil].
     + intros E; inversion E; subst. split; [qe; auto|]. split; [se | apply kwf_nil].
   - intros E; inversion E; subst. split; [qe; auto|]. split; [se | apply kwf_nil].
 Qed.
@@ -1010,8 +1147,9 @@ Proof.
   - intros E; inversion E; subst. split; auto. split; [apply sle_refl | apply kwf_one_plain; reflexivity].
   - intros E; inversion E; subst. split; auto. split; [apply sle_refl | apply kwf_one_plain; reflexivity].
   - intros E; inversion E; subst. split; auto. split; [apply sle_refl|]. constructor; [exact (Forall_inv_tail V) | constructor].
-  - destruct (aget (fwds s) f) as [[rc k tg]|].
-    + destruct (minrc_drop rc) as [[v' z]|].
+  - destruct (aget (fwds s) f) as [[rc k tg]|] eqn:FG.
+    + assert (FS : forall rc', fwf s (aset (fwds s) f (FwdObj rc' k tg))) by (intros rc'; eapply fwf_same; [exact (w_fwds _ H) | exact FG]).
+      destruct (minrc_drop rc) as [[v' z]|].
       * destruct z; [destruct k; [|destruct tg]|]; intros E; inversion E; subst.
         -- split; [qe; apply Q_set_fwds; auto|]. split; [eapply sle_trans; [|se]; apply sle_same; reflexivity | apply kwf_nil].
         -- split; [apply Q_set_fwds; auto|]. split; [apply sle_same; reflexivity | apply kwf_one_plain; reflexivity].
@@ -1111,8 +1249,10 @@ Proof.
       split; [|split; [exact L|]].
       * apply Q_set_frames. qe; auto. eapply Forall_impl; [|exact W2]. intros x. apply nsf_mono. se.
       * apply kwf_app. split; [apply kwf_drops; eapply nsf_mono; eauto|].
-        apply kwf_plain. destruct f; simpl; try tauto; destruct (f_die fr); try destruct ready; simpl; intros m M;
-          repeat (destruct M as [<-|M]; [reflexivity|]); contradiction.
+        destruct f as [|a0|a0 ready]; simpl; try apply kwf_nil;
+          destruct (f_die fr); try destruct ready; try apply kwf_nil;
+          try (apply kwf_plain; simpl; intros m M; repeat (destruct M as [<-|M]; [reflexivity|]); contradiction).
+        constructor; [|constructor]. eapply nsf_mono; [exact L | exact MW].
   - (* MRunItem *) apply FIN. eapply run_item_wf; eauto.
   - apply FIN. eapply drop_item_wf; eauto.
   - (* MDropInner *) apply FIN. inversion E; subst. split; [qe; auto|]. split; [se|].
@@ -1132,7 +1272,7 @@ Proof.
   - (* MToReady *) apply FIN. destruct (aget (actors s) a) as [x|] eqn:AX.
     + pose proof (w_actors _ H _ _ AX) as [A1 A2]. destruct (a_state x) eqn:SX; inversion E; subst.
       * split; [|split; [eapply sle_trans; [apply sle_upd_actor | se]|]].
-        -- qe; apply Q_upd_actor; auto. split; simpl; auto.
+        -- qe; apply Q_upd_actor; eauto. split; simpl; auto. apply lwf_nil.
         -- apply kwf_map_runitem. eapply qwf_mono; [|exact A1]. eapply sle_trans; [apply sle_upd_actor | se].
       * re.
       * re.
@@ -1220,7 +1360,8 @@ Lemma WF_init d p : WF (map MTop p ++ [MEpilogue]) (init d).
 Proof.
   split.
   - apply kwf_plain. intros m M. apply in_app_or in M as [M|[<-|[]]]; [|reflexivity]. apply in_map_iff in M as (o & <- & _). reflexivity.
-  - constructor; simpl; [lia | constructor | constructor | constructor | constructor | constructor | constructor | intros a0 x0 E0; discriminate E0 | reflexivity].
+  - constructor; simpl; [lia | constructor | constructor | constructor | constructor | constructor | constructor | intros a0 x0 E0; discriminate E0 | reflexivity
+                         | intros a0 x0 E0; discriminate E0 | intros f0 rc0 k0 a0 E0; discriminate E0].
 Qed.
 
 (* every configuration the machine reaches from a program is well-formed *)
